@@ -21,42 +21,71 @@ SHARD = 400
 IMPL_TIMEOUT = 1500
 COQ_TIMEOUT = 900
 RULE = ("reactant/product graph pairs (synthetic on a shared node set, malformed ones violating the shared-node-set "
-        "precondition, and (G,H)=rsmi_to_graph(r) for corpus reactions and their rewritings); non-trivial = balanced pair "
-        "(same node ids, positive orders) in which at least one bond differs between the sides; distinct = distinct case inputs")
+        "precondition, and (G,H)=rsmi_to_graph(r) for corpus reactions and their rewritings), each also under the options of "
+        "ITSConstruction; reaction strings through the whole rsmi_to_its / its_to_rsmi pipeline; molecules through MolToGraph; molecule "
+        "graphs with explicit hydrogens through implicit_hydrogen + GraphToMol; non-trivial = balanced pair (same node ids, positive "
+        "orders) in which at least one bond differs between the sides (ih: non-empty preserve set); distinct = distinct case inputs")
 EXHAUSTIVE = {"quick": True, "thorough": True}
 EXPLANATION = ("Exhaustive sub-space (both tiers): ALL pairs (G,H) on a shared node set of 1 and 2 nodes over element in {C,H}, "
                "per side hcount {0,1} x charge {0,1}, per side order {absent,1,1.5,2} (32 + 16384 pairs); on 3 nodes all 4096 "
-               "assignments of per-side orders {absent,1,1.5,2} to the three pairs with PRNG node labels. Sampled: 4-node pairs, "
-               "random pairs up to 9 nodes, malformed pairs (different node sets, order 0 edges, atom_map != id), corpus reactions "
-               "(graph.pkl.gz 100 + ecoli 274) and map-renumbering / re-rooting / fragment-shuffle / reversal rewritings. "
-               "Theorems: round trip, union + order pair + difference, equivariance under injective relabelling, refutation "
-               "without the shared-node-set precondition, string round trip relative to the RDKit contract.")
+               "assignments of per-side orders {absent,1,1.5,2} to the three pairs with PRNG node labels; on 2 carbon atoms all 16 order "
+               "pairs x every value of (ignore_aromaticity, balance_its, store, ITSGraph|construct) (256). Sampled: 4-node pairs, "
+               "random pairs up to 9 nodes, malformed pairs (different node sets, order 0 edges, atom_map != id), random / malformed / "
+               "aromatisation pairs under PRNG options incl. attributes_defaults, corpus reactions (graph.pkl.gz 100 + ecoli 274) and "
+               "map-renumbering (also into 100..2000) / re-rooting / fragment-shuffle / reversal / explicit-hydrogen rewritings plus hand-made "
+               "reactions (two reacting hydrogens on one atom, H2, spectator H2, %10 ring closures, explicit proton), each both as a graph "
+               "pair and through the instrumented string pipeline (kinds str-*: the graphs of rsmi_to_graph, the ITS, the preserve list and "
+               "the two graphs its_to_rsmi hands to GraphToMol, the two RWMol contents); MolToGraph.transform under all four flag "
+               "combinations on fragments with atoms unmapped / maps duplicated; implicit_hydrogen + GraphToMol on synthetic graphs with "
+               "explicit hydrogens. Theorems: round trip, union + order pair + difference, equivariance, refutation without the "
+               "shared-node-set precondition; the same for every option value and both store modes, the exact effect of "
+               "ignore_aromaticity on standard_order; closed form of MolToGraph.transform, implicit_hydrogen (hydrogen total preserved, "
+               "decrement once per preserved hydrogen), GraphToMol, the graphs its_to_rsmi writes; string round trip relative to a contract "
+               "on RDKit alone.")
 TRUSTED_BASE = [
     "Coq 8.16.1 kernel + vm_compute (no native_compute); stdlib only",
-    "hand-written model coq/model/C01_Model.v tied to synkit/Graph/ITS/{its_construction,its_decompose}.py by the per-run correspondence",
-    "harness encoders harness/gen/c01_enc.py (nx graph -> Gallina literal, half-unit bond orders, injective element interning; attributes -> tok)",
-    "networkx Graph / copy.deepcopy semantics",
-    "RDKit (parser, sanitiser, writer) and synkit/IO/{mol_to_graph,graph_to_mol}.py: modelled as the oracles parse/write of theorem C01_rsmi_partial, monitored, not verified",
+    "hand-written models coq/model/C01_Model.v, C01_Opts.v (ITSConstruction options), C01_String.v (MolToGraph.transform, implicit_hydrogen, "
+    "GraphToMol, rsmi_to_its / its_to_rsmi glue; uses get_rc of C02_Model.v) tied to synkit/Graph/ITS/{its_construction,its_decompose}.py, "
+    "synkit/IO/{chem_converter,mol_to_graph,graph_to_mol}.py, synkit/Graph/Hyrogen/_misc.py by the per-run correspondence",
+    "harness encoders harness/gen/c01_enc.py, c01_str.py (nx graph / RDKit Mol -> Gallina literal, half-unit bond orders, injective element "
+    "interning; attributes -> tok; monkeypatched recording of the graphs its_to_rsmi passes to GraphToMol and of the preserve set)",
+    "networkx Graph / copy.deepcopy / copy.copy semantics",
+    "RDKit: MolFromSmiles, SanitizeMol, atom/bond getters, RWMol construction, MolToSmiles - parameters rd_read / rd_write of theorem "
+    "C01_rsmi_pipeline with contract R1 (premise), monitored on every corpus case, not verified; 'neighbors' (sorted neighbour symbols) is "
+    "read off RDKit by the harness, the model does not sort strings",
 ]
 ASSUMPTIONS = [
     "node ids are natural numbers; atom_map, hcount, charge are integers; bond orders are multiples of 0.5",
     "balanced = reactant and product graph have the same node-id set (for strings: equal atom-map sets, every atom mapped, maps unique per side)",
-    "RDKit contract S1 (premise of C01_rsmi_partial): reading back what graph_to_rsmi wrote gives the same mapped graphs",
+    "node_attrs of ITSConstruction.construct is the default list (element, aromatic, hcount, charge, neighbors) that ITSGraph passes; other "
+    "selections are not modelled (its_decompose reads positions 0..3 of typesGH)",
+    "RDKit contract R1 (premise of C01_rsmi_pipeline): for a well-formed graph that is the MolToGraph reading of a molecule RDKit has read, "
+    "reading back what RDKit writes for GraphToMol's RWMol gives the same mapped graph",
+    "atom-map-equivalence of strings is taken modulo spectator explicit hydrogens (a mapped H bonded to the same single heavy atom on both "
+    "sides): its_to_rsmi writes those implicitly by design",
 ]
 TESTED_NOT_PROVED = [
-    "rsmi_to_graph agrees with an independent RDKit reading of the reaction (element, charge, total H, aromaticity per atom map, bond orders): oracle on every corpus case",
-    "its_to_rsmi(rsmi_to_its(r)) is atom-map-equivalent to r (ITS isomorphism, independent reading) and has the same unmapped sides: oracle on every balanced, fully mapped corpus case and rewriting",
-    "graph_to_rsmi / graph_to_smi / GraphToMol / implicit_hydrogen (RDKit half) are not modelled",
+    "rsmi_to_graph agrees with an independent RDKit reading of the reaction (element, charge, total H, aromaticity per atom map, bond orders): oracle on every str-* case",
+    "its_to_rsmi(rsmi_to_its(r)) is atom-map-equivalent to r (ITS isomorphism, independent reading, modulo spectator explicit hydrogens) and has the "
+    "same unmapped sides: oracle on every balanced, fully mapped corpus case, rewriting and hand-made reaction (RDKit contract R1 + totality of the writer)",
+    "reactions with explicit reacting hydrogens end to end: the graph-level statements are theorems C01_implicit_hydrogen and C01_its_to_graphs, the "
+    "string-level conclusion (C01_rsmi_pipeline) is proved only for reactions without explicit hydrogen atoms",
+    "implicit_hydrogen keeps every non-hydrogen atom's total H on graphs whose hydrogens have one bond: oracle on every ih case (theorem C01_implicit_hydrogen for all well-formed graphs)",
 ]
-LEVEL_TEXT = ("Machine-checked proof (Coq) over an executable model of ITSConstruction.ITSGraph and its_decompose: for all well-formed "
+LEVEL_TEXT = ("Machine-checked proof (Coq) over an executable model of ITSConstruction.construct/ITSGraph and its_decompose: for all well-formed "
               "reactant/product graphs on the same node set with positive bond orders, decompose(construct(G,H)) returns exactly G and H "
-              "(atoms, element, aromaticity, hydrogen count, charge, atom_map = node id, every bond with its order); the ITS has exactly "
-              "the union of the nodes and bonds, every bond carrying (order_G or 0, order_H or 0) and their difference; both functions "
-              "commute with every injective renumbering; without the shared-node-set precondition the round trip fails (witness). "
-              "The model is compared with the Python code on every run over an exhaustive small scope, random and malformed pairs and "
-              "the bundled reaction corpora with rewritings.")
-LEVEL_NOTE = ("The string half (rsmi_to_graph, its_to_rsmi: RDKit + MolToGraph/GraphToMol) is modelled as an oracle with an explicit "
-              "contract (theorem C01_rsmi_partial) and only tested: independent-reading monitor and string round-trip oracle on the corpora.")
+              "(atoms, element, aromaticity, hydrogen count, charge, atom_map = node id, every bond with its order) - for every value of "
+              "ignore_aromaticity, balance_its, store and attributes_defaults; the ITS has exactly the union of the nodes and bonds, every bond "
+              "carrying (order_G or 0, order_H or 0) and standard_order = their difference (zeroed below one unit under ignore_aromaticity, "
+              "proved exactly); both functions commute with every injective renumbering; without the shared-node-set precondition the round "
+              "trip fails (witness). The string half is modelled between the RDKit calls: MolToGraph.transform in closed form (mapped atoms, "
+              "bonds between them, atom_map = id), implicit_hydrogen (reaction-centre hydrogens stay, all others are folded, every atom's "
+              "hydrogen total is preserved, decrement once per preserved hydrogen), GraphToMol up to the RWMol, and the string round trip "
+              "its_to_rsmi(rsmi_to_its(r)) relative to a written-out contract on RDKit's reader/writer alone. Every model is compared with "
+              "the Python code on every run, including the intermediate graphs recorded inside its_to_rsmi.")
+LEVEL_NOTE = ("RDKit (parse, sanitise, write) is a named premise (contract R1 of theorem C01_rsmi_pipeline), monitored by an independent-reading "
+              "oracle on the corpora, not verified; the string-level theorem covers reactions without explicit hydrogen atoms, reactions with "
+              "explicit hydrogens are covered by the graph-level theorems plus the string oracle. node_attrs other than the default are not modelled.")
 
 
 def worker_init():
@@ -329,7 +358,36 @@ def oracle(case):
     return fails[:3]
 
 
+def neighbours(case, rng):
+    """cases near a case on which model and implementation disagree, searched with the oracle: the same pair under every
+    option value, the string-pipeline twin and an explicit-hydrogen rewriting of a reaction string"""
+    out = []
+    if "G" in case and "H" in case and case.get("kind") != "ih":
+        out.append(dict(kind="nb", G=case["G"], H=case["H"]))
+        for ia in (True, False):
+            for store in (False, True):
+                out.append(dict(kind="nb-opt", G=case["G"], H=case["H"],
+                                opts=dict(ia=ia, bal=rng.random() < 0.5, store=store, api=rng.choice(("ITSGraph", "construct")))))
+    if "rsmi" in case:
+        out.append(dict(kind="nb", rsmi=case["rsmi"]))
+        out.append(dict(kind="str-nb", rsmi=case["rsmi"]))
+        out.append(dict(kind="nb-opt", rsmi=case["rsmi"], opts=dict(ia=True, bal=False, store=False, api="ITSGraph")))
+        try:
+            x = T.explicit_h_rewrite(case["rsmi"], rng, 0.5)
+        except Exception:
+            x = None
+        if x:
+            out.append(dict(kind="str-nb", rsmi=x))
+    for i, c in enumerate(out):
+        c["name"] = "neighbour-of-%s#%d" % (case.get("name", "?"), i)
+    return out
+
+
 def nontrivial(case, obs):
+    if case.get("kind") == "ih":
+        return bool(case["pres"]) and any(a["element"] == "H" for _, a in case["G"]["nodes"])
+    if case.get("kind") == "m2g":
+        return False
     gh = _graphs_nx(case)
     if gh is None:
         return False
@@ -339,7 +397,46 @@ def nontrivial(case, obs):
 
 def distribution(cases, obss):
     sizes, bal, half15, onesided, changed = {}, 0, 0, 0, 0
+    extra = dict(opts_ignore_aromaticity=0, opts_balance_its=0, opts_store=0, opts_custom_defaults=0, opts_std_zeroed_but_orders_differ=0,
+                 str_with_preserved_hydrogens=0, str_with_folded_hydrogens=0, str_ten_or_more_atoms=0, str_map_numbers_100_plus=0,
+                 ih_two_or_more_preserved_on_one_atom=0, ih_nonempty_preserve=0, m2g_with_unmapped_atoms=0)
     for c, o in zip(cases, obss):
+        k = c.get("kind", "")
+        try:
+            if k.startswith("str-") and isinstance(o, list) and len(o) == 8:
+                hl = o[3]["__set__"]
+                extra["str_with_preserved_hydrogens"] += bool(hl)
+                n_in = sum(1 for r in o[0][0]["__set__"] if r[1] == 2)
+                n_out = sum(1 for r in o[4][0]["__set__"] if r[1] == 2)
+                extra["str_with_folded_hydrogens"] += n_out < n_in
+                extra["str_ten_or_more_atoms"] += len(o[0][0]["__set__"]) >= 10
+                extra["str_map_numbers_100_plus"] += any(r[0] >= 100 for r in o[0][0]["__set__"])
+                continue
+            if k == "ih":
+                extra["ih_nonempty_preserve"] += bool(c["pres"])
+                par = {}
+                hs = {n for n, a in c["G"]["nodes"] if a["element"] == "H" and a["atom_map"] in set(c["pres"])}
+                for u, v, _ in c["G"]["edges"]:
+                    for x, y in ((u, v), (v, u)):
+                        if x in hs:
+                            par[y] = par.get(y, 0) + 1
+                extra["ih_two_or_more_preserved_on_one_atom"] += any(v >= 2 for v in par.values())
+                continue
+            if k == "m2g":
+                extra["m2g_with_unmapped_atoms"] += ":" not in c["smiles"] or c["smiles"].count("[") > c["smiles"].count(":")
+                continue
+            if "opts" in c:
+                op = c["opts"]
+                extra["opts_ignore_aromaticity"] += bool(op.get("ia"))
+                extra["opts_balance_its"] += bool(op.get("bal"))
+                extra["opts_store"] += bool(op.get("store"))
+                extra["opts_custom_defaults"] += bool(op.get("dflt"))
+                if isinstance(o, list) and len(o) == 3:
+                    extra["opts_std_zeroed_but_orders_differ"] += any(e[4] == 0 and e[2] != e[3] for e in o[0][1]["__set__"])
+                if op.get("store"):
+                    continue
+        except Exception:
+            continue
         if not (isinstance(o, list) and len(o) == 3):
             sizes["unparsable"] = sizes.get("unparsable", 0) + 1
             continue
@@ -355,7 +452,7 @@ def distribution(cases, obss):
             onesided += 1
         if any(e[4] != 0 for e in edges):
             changed += 1
-    return dict(its_sizes=sizes, same_node_set=bal, with_order_1_5=half15, with_one_sided_bond=onesided, with_changed_bond=changed)
+    return dict(its_sizes=sizes, same_node_set=bal, with_order_1_5=half15, with_one_sided_bond=onesided, with_changed_bond=changed, **extra)
 
 
 def shrink(case, fl):
@@ -592,8 +689,11 @@ HAND_STR = [
     # ring closure digits >= 10 and two-digit atom maps
     "[cH:10]1[cH:11][cH:12][c:13]2[cH:14][cH:15][cH:16][cH:17][c:18]2[cH:19]1.[Br:20][Br:21]>>[cH:10]1[cH:11][c:12]([Br:20])[c:13]2[cH:14][cH:15][cH:16][cH:17][c:18]2[cH:19]1.[Br:21][H:22]",
     # charged species, proton transfer written with an explicit proton
+    "[CH2:1]%10[CH2:2][CH2:3][CH2:4][CH2:5][CH:6]%10[Br:7].[OH2:8]>>[CH2:1]%11[CH2:2][CH2:3][CH2:4][CH2:5][CH:6]%11[OH:8].[BrH:7]",
     "[NH3:1].[H+:2]>>[NH3+:1][H:2]",
     "[O-:1][CH3:2].[H:3][Cl:4]>>[O:1]([H:3])[CH3:2].[Cl-:4]",
+    # a charged and a neutral hydrogen in the same reaction centre
+    "[NH3:1].[H+:2].[Cl:3][H:4].[OH-:5]>>[NH3+:1][H:2].[Cl-:3].[OH:5][H:4]",
 ]
 
 
@@ -617,6 +717,18 @@ def gen_str(rsmi_cases, rng, n_exph):
             cases.append(dict(kind="str-exph", rsmi=x, src=c.get("src")))
             cases.append(dict(kind="exph", rsmi=x, src=c.get("src")))
             k += 1
+    for c in pool[:max(6, n_exph // 2)]:                       # an unmapped reagent on both sides / a few atoms unmapped: outside the
+        a, b = c["rsmi"].split(">>")                           # property (not fully mapped), model and code must still agree (dropped)
+        rg = rng.choice(("O", "CCO", "[Na+].[Cl-]", "c1ccccc1", "ClCCl", "CN(C)C=O"))
+        cases.append(dict(kind="str-reagent", rsmi=a + "." + rg + ">>" + b + "." + rg, src=c.get("src")))
+        cases.append(dict(kind="str-partmap", rsmi=_unmap_some(a, rng, False) + ">>" + _unmap_some(b, rng, False), src=c.get("src")))
+    import re
+    for c in pool[:max(4, n_exph // 3)]:                       # atom maps of three digits and more (100 .. 2000)
+        ms = R.map_numbers(c["rsmi"])
+        table = dict(zip(ms, rng.sample(range(100, 2000), len(ms))))
+        x = re.sub(r":(\d+)\]", lambda m: ":%d]" % table[int(m.group(1))], c["rsmi"])
+        cases.append(dict(kind="str-renum100", rsmi=x, src=c.get("src")))
+        cases.append(dict(kind="renum100", rsmi=x, src=c.get("src")))
     for i, r in enumerate(HAND_STR):
         cases.append(dict(kind="str-hand", rsmi=r, src="hand#%d" % i))
         cases.append(dict(kind="hand", rsmi=r, src="hand#%d" % i))
@@ -624,14 +736,14 @@ def gen_str(rsmi_cases, rng, n_exph):
     return cases
 
 
-def _unmap_some(smiles, rng):
+def _unmap_some(smiles, rng, dup=True):
     """remove the atom map of some atoms / give two atoms the same map (malformed input for MolToGraph)"""
     import re
     maps = re.findall(r":(\d+)\]", smiles)
     if not maps:
         return smiles
     z = rng.random()
-    if z < 0.6:
+    if z < 0.6 or not dup:
         drop = set(rng.sample(maps, rng.randint(1, max(1, len(maps) // 3))))
         return re.sub(r":(\d+)\]", lambda m: "]" if m.group(1) in drop else m.group(0), smiles)
     if len(maps) >= 2:
